@@ -91,6 +91,9 @@ MENU = [
                                                       FieldCb('close', 'void', [('gpointer', 'data')])])),
     ('rec-array', lambda: TypedefAnon('FooBuf', [Field('data', 'guint8', array=16), Field('names', 'char*', array=2), Field('n', 'gsize')])),
     ('rec-embed', lambda: TypedefAnon('FooOuter', [Field('inner', 'FooRec'), Field('ptr', 'FooRec*'), Field('kind', 'FooKind')])),
+    # a field the scanner marks introspectable="0" (unknown type) in front of an array whose length names a later field
+    ('rec-hidden-field', lambda: TypedefAnon('FooCookie', [Field('cookie', 'BarThing*'), Field('n_items', 'guint'),
+                                                             Field('items', 'int*'), Field('tail', 'int')])),
     ('rec-opaque', lambda: Typedef('FooOpaque', 'struct _FooOpaque')),
     ('rec-disguised', lambda: Typedef('FooPtr', 'struct _FooPtrStruct*')),
     ('enum-neg', lambda: Enum('FooSigned', [('FOO_SIGNED_MINUS', -1), ('FOO_SIGNED_BIG', 2147483647)])),
@@ -127,6 +130,7 @@ COMMENTS = {
     'fn-unknown': scanrun.block('foo_mystery', [('t', '')], ident_ann='(skip)'),
     'const-int': scanrun.block('FOO_MAX', [], tags=[('Deprecated', '2.0: gone')]),
     'rec-anon': scanrun.block('FooPoint', [], ident_ann='(attributes rk=rv)'),
+    'rec-hidden-field': scanrun.block('FooCookie', [('items', '(array length=n_items)')]),
     'enum-neg': scanrun.block('FooSigned', [], tags=[('Since', '0.5')]),
 }
 
@@ -241,7 +245,9 @@ SITE_ANNS = ['(skip)', '(nullable)', '(optional)', '(allow-none)', '(not nullabl
              '(type GLib.List(utf8))', '(scope call)', '(scope async)', '(scope notified)', '(scope forever)',
              '(closure ctx)', '(destroy dn)', '(closure ctx) (destroy dn)', '(scope notified) (closure ctx) (destroy dn)',
              '(attributes a=b c=d)', '(skip) (nullable)', '(out) (optional) (nullable)', '(out) (transfer container) (array length=len)',
-             '(inout) (array length=len) (transfer full)', '(nullable) (transfer full)', '(array length=len) (element-type utf8) (transfer full)']
+             '(inout) (array length=len) (transfer full)', '(nullable) (transfer full)', '(array length=len) (element-type utf8) (transfer full)',
+             # every direction x nullable x optional: the typelib must carry exactly the flags the GIR states
+             '(out) (nullable)', '(out) (optional)', '(inout) (nullable)', '(inout) (optional)', '(inout) (nullable) (optional)']
 
 
 def site_cases():
